@@ -34,10 +34,10 @@ class RouteSuite(Suite):
             kind = rng.random()
             if kind < 0.3:
                 routes.append((sfx, "forge-nxdomain", None))
-            elif kind < 0.97:
+            elif kind < 0.93:
                 routes.append((sfx, rng.choice(["forward", None]), "127.0.0.%d" % (2 + i)))
             else:
-                routes.append((sfx, "forward", None))         # forward route without a server
+                routes.append((sfx, rng.choice(["forward", None]), None))         # forward route (explicit or by default) without a server
         return routes, base
 
     def yaml(self, routes):
